@@ -22,8 +22,13 @@ def frame(draw, lo=30, hi=100, max_k=4):
 def derived_frame(draw, ref, lo=30, hi=100):
     out = []
     for m in ref:
-        a = draw(st.sampled_from(["keep", "off", "off", "drop"]))
+        a = draw(st.sampled_from(["keep", "off", "off", "drop", "cluster"]))
         if a == "drop":
+            continue
+        if a == "cluster":
+            # several estimates inside the tolerance window of ONE reference pitch (only one of them may count as a hit)
+            for off in draw(st.lists(st.sampled_from([0, 10, -10, 20, -20, 40, -40, 45, -45]), min_size=2, max_size=3, unique=True)):
+                out.append(m + off)
             continue
         v = m if a == "keep" else m + draw(st.sampled_from(OFFSETS))
         if 17 * 100 <= v <= 110 * 100:
